@@ -157,7 +157,9 @@ impl RwLock {
                 .as_ref()
                 .map(|operation| operation.object());
 
-            if obj == Some(self.state.erase()) {
+            // `operation` may be left over from an earlier operation on this
+            // lock: only wake threads that are blocked on it.
+            if obj == Some(self.state.erase()) && thread.is_blocked() {
                 thread.set_runnable();
             }
         }
